@@ -337,4 +337,215 @@ Proof.
         fold k2 in Ec. congruence. }
     apply IH; [exact HI'|apply same_par_step; exact Hpar|lia|lia].
 Qed.
+
+(* ---------- the backward pass of round d ---------- *)
+Record BI (d k : Z) (buf : list Z) : Prop := {
+  bi_len : zlen buf = len0;
+  bi_cur : forall k', lo d <= k' -> k' < k -> k' <= hi d -> same_par k' d -> Vr d k' (V2 buf k');
+  bi_p : 1 <= d -> forall k', lo (d - 1) <= k' <= hi (d - 1) -> same_par k' (d - 1) -> Vr (d - 1) k' (V2 buf k');
+  bi_f : forall k', lo d <= k' <= hi d -> same_par k' d -> Vf d k' (V1 buf k');
+  bi_i2 : d = 0 -> V2 buf 1 = 0;
+  bi_nm : Z.odd delta = false -> forall k', lo d <= k' -> k' < k -> k' <= hi d -> same_par k' d ->
+          forall px py, 0 <= px <= m -> 0 <= py <= n -> (m - px) - (n - py) = k' ->
+          dist a b px py = d -> rdist a b px py = d -> False
+}.
+
+Lemma backward_pass d : 0 <= d -> 2 * d <= m + n + 1 ->
+  (Z.odd delta = false -> 2 * d <= Dtot a b) ->
+  forall fuel k buf, BI d k buf -> same_par k d -> lo d <= k -> hi d - k < 2 * Z.of_nat fuel ->
+  match backward a b fuel d k (lo d) (hi d) buf with
+  | (buf', Some (ai, bi, s)) => zlen buf' = len0 /\ Opt ai bi s
+  | (buf', None) => exists k', hi d < k' /\ BI d k' buf'
+  end.
+Proof.
+  intros Hd H2d Hlow. induction fuel as [|f IH]; intros k buf HI Hpar Hlo Hfuel.
+  { cbn [backward]. exists k. split; [lia|exact HI]. }
+  rewrite backward_S. destruct (Z.gtb_spec k (hi d)) as [Hgt|Hle].
+  { exists k. split; [lia|exact HI]. }
+  cbv zeta.
+  set (x := newx m n condr fuelN d k (getb buf (2 * mx + (mx + k - 1))) (getb buf (2 * mx + (mx + k + 1)))).
+  set (buf' := setb buf (2 * mx + mx + k) x).
+  set (k1 := - delta - k).
+  assert (Hkd : - d <= k <= d) by win_lia.
+  assert (Hidx : 0 <= 2 * mx + mx + k < len0) by win_lia.
+  assert (Hlen := bi_len _ _ _ HI).
+  assert (Hx : Vr d k x).
+  { unfold x. replace (mx + k - 1) with (mx + (k - 1)) by lia. replace (mx + k + 1) with (mx + (k + 1)) by lia.
+    fold (V2 buf (k - 1)) (V2 buf (k + 1)). apply Vr_update; try assumption.
+    - intros ->. assert (k = 0) by lia. subst k. apply (bi_i2 _ _ _ HI eq_refl).
+    - intros H1 Hk. destruct Hpar as [j Hj]. apply (bi_p _ _ _ HI H1); [win_lia|]. exists j. lia.
+    - intros H1 Hk. destruct Hpar as [j Hj]. apply (bi_p _ _ _ HI H1); [win_lia|]. exists (j + 1). lia. }
+  assert (F2 : forall k', V2 buf' k' = if k' =? k then x else V2 buf k') by (intro; apply V2_write; assumption).
+  assert (F1 : forall d' k', 0 <= d' -> k' <= hi d' -> V1 buf' k' = V1 buf k').
+  { intros d' k' Hd' Hk'. apply V1_write2; try assumption. apply (window_sep d' d); assumption. }
+  assert (Hk1 : Z.odd delta = false -> lo d <= k1 <= hi d -> Vf d k1 (V1 buf' k1)).
+  { intros Hev Hr. destruct (even_delta_ex Hev) as [q Hq].
+    rewrite (F1 d k1) by lia. apply (bi_f _ _ _ HI); [lia|].
+    destruct Hpar as [j Hj]. exists (- q - j - d). unfold k1. lia. }
+  match goal with |- context[if ?c then _ else _] => destruct c eqn:Ec end.
+  - (* the paths overlap *)
+    rewrite !andb_true_iff in Ec. destruct Ec as [[[Eo E1] E2] E3].
+    apply negb_true_iff in Eo. apply Z.geb_le in E1, E3. apply Z.leb_le in E2.
+    pose proof (Hk1 Eo (conj E1 E2)) as Hu.
+    split; [unfold buf'; now rewrite zlen_setb|].
+    fold k1 in E3 |- *. set (x1 := V1 buf' k1) in *. set (s := bsnake k x buf'). unfold Opt. intros A1 A2 A3 A4 A5.
+    destruct Hx as [X1 [X2 [X3 X4]]]. destruct Hu as [U1 [U2 [U3 U4]]].
+    pose proof (dist_diag_mono_n a b (m - x) (n - (x - k)) A1 A2 (x1 - (m - x)) ltac:(lia)) as M1.
+    replace (m - x + (x1 - (m - x))) with x1 in M1 by lia.
+    replace (n - (x - k) + (x1 - (m - x))) with (x1 - k1) in M1 by (unfold k1; lia).
+    pose proof (rdist_diag_mono a b (m - x) (n - (x - k)) s A1 A2 A3 A4 A5) as M2.
+    rewrite (rdist_as_dist (m - x) (n - (x - k))) in M2 by lia.
+    replace (m - (m - x)) with x in M2 by lia. replace (n - (n - (x - k))) with (x - k) in M2 by lia.
+    specialize (Hlow Eo). lia.
+  - (* no overlap on this diagonal *)
+    assert (HI' : BI d (k + 2) buf').
+    { constructor.
+      - unfold buf'. now rewrite zlen_setb.
+      - intros k' L1 L2 L3 Pk'. rewrite F2. destruct (Z.eqb_spec k' k) as [->|Hne]; [exact Hx|].
+        apply (bi_cur _ _ _ HI); try assumption.
+        destruct Pk' as [j1 E1]. destruct Hpar as [j2 E2]. lia.
+      - intros H1 k' Hr Pk'. rewrite F2. destruct (Z.eqb_spec k' k) as [Heq|Hne].
+        + exfalso. rewrite Heq in Pk'. exact (not_same_par_succ _ _ Hpar Pk').
+        + now apply (bi_p _ _ _ HI).
+      - intros k' Hr Pk'. rewrite (F1 d k') by lia. now apply (bi_f _ _ _ HI).
+      - intros ->. rewrite F2. assert (k = 0) by lia. subst k. cbn. apply (bi_i2 _ _ _ HI eq_refl).
+      - intros Hev k' L1 L2 L3 Pk' px py Hpx Hpy Hdiag Hdist Hrd.
+        destruct (Z.eq_dec k' k) as [->|Hne].
+        2:{ apply (bi_nm _ _ _ HI Hev k') with (px := px) (py := py); try assumption.
+            destruct Pk' as [j1 E1]. destruct Hpar as [j2 E2]. lia. }
+        destruct (in_window_f px py d Hpx Hpy Hdist) as [Wf Pf].
+        assert (Hk1eq : px - py = k1) by (unfold k1; lia). rewrite Hk1eq in *.
+        pose proof (Hk1 Hev Wf) as Hu.
+        destruct Hx as [X1 [X2 [X3 X4]]]. destruct Hu as [U1 [U2 [U3 U4]]].
+        assert (Hpx' : px <= V1 buf' k1).
+        { apply U4; try lia. replace (px - k1) with py by lia. lia. }
+        assert (Hx' : m - px <= x).
+        { apply X4; try lia. replace (m - px - k) with (n - py) by lia.
+          rewrite <- rdist_as_dist by lia. lia. }
+        assert (Hc : negb (Z.odd delta) && (k1 >=? lo d) && (k1 <=? hi d) && (V1 buf' k1 >=? m - x) = true).
+        { rewrite !andb_true_iff. repeat split; [now rewrite Hev|apply Z.geb_le; lia|apply Z.leb_le; lia|apply Z.geb_le; lia]. }
+        fold k1 in Ec. congruence. }
+    apply IH; [exact HI'|apply same_par_step; exact Hpar|lia|lia].
+Qed.
+(* ---------- gluing the passes ---------- *)
+Lemma FI_end_BI d k buf : hi d < k -> FI d k buf -> BI d (lo d) buf.
+Proof.
+  intros Hk HI. constructor.
+  - apply (fi_len _ _ _ HI).
+  - intros; lia.
+  - apply (fi_p2 _ _ _ HI).
+  - intros k' Hr Pk'. apply (fi_cur _ _ _ HI); try lia. exact Pk'.
+  - apply (fi_i2 _ _ _ HI).
+  - intros; lia.
+Qed.
+
+Lemma BI_end_FI d k buf : 0 <= d -> hi d < k -> BI d k buf -> FI (d + 1) (lo (d + 1)) buf.
+Proof.
+  intros Hd Hk HI. constructor.
+  - apply (bi_len _ _ _ HI).
+  - intros; lia.
+  - intros _ k'. replace (d + 1 - 1) with d by lia. intros Hr Pk'. now apply (bi_f _ _ _ HI).
+  - intros _ k'. replace (d + 1 - 1) with d by lia. intros Hr Pk'. apply (bi_cur _ _ _ HI); try lia. exact Pk'.
+  - intros; lia.
+  - intros; lia.
+  - intros; lia.
+Qed.
+
+Lemma forward_no_mid d k buf : 0 <= d -> hi d < k -> FI d k buf -> Z.odd delta = true -> Dtot a b <> 2 * d - 1.
+Proof.
+  intros Hd Hk HI Hodd Heq. pose proof Dtot_bounds as [Hb _].
+  destruct (split_point a b d ltac:(lia)) as (px & py & Hpx & Hpy & H1 & H2).
+  pose proof (dist_rdist_ge a b px py) as Hge.
+  destruct (in_window_f px py d Hpx Hpy ltac:(lia)) as [W P].
+  apply (fi_nm _ _ _ HI Hodd (px - py)) with (px := px) (py := py); try lia. exact P.
+Qed.
+
+Lemma backward_no_mid d k buf : 0 <= d -> hi d < k -> BI d k buf -> Z.odd delta = false -> Dtot a b <> 2 * d.
+Proof.
+  intros Hd Hk HI Hev Heq.
+  destruct (split_point a b d ltac:(lia)) as (px & py & Hpx & Hpy & H1 & H2).
+  pose proof (dist_rdist_ge a b px py) as Hge.
+  destruct (in_window_r px py d Hpx Hpy ltac:(lia)) as [W P].
+  apply (bi_nm _ _ _ HI Hev ((m - px) - (n - py))) with (px := px) (py := py); try lia. exact P.
+Qed.
+
+Lemma same_par_lo d : same_par (lo d) d.
+Proof. unfold lo. destruct (d >? n); [exists (- n)|exists (- d)]; lia. Qed.
+
+Lemma middle_loop_ok : forall fuel d ps pl buf, 0 <= d -> FI d (lo d) buf ->
+  ((d = 0 /\ ps = 0 /\ pl = 0) \/ (1 <= d /\ ps = lo (d - 1) /\ pl = hi (d - 1))) ->
+  (Z.odd delta = true -> 2 * d - 1 <= Dtot a b) ->
+  (Z.odd delta = false -> 2 * d <= Dtot a b) ->
+  forall ai bi s buf', middle_loop a b fuel d ps pl buf = MidFound ai bi s buf' ->
+  zlen buf' = len0 /\ Opt ai bi s.
+Proof.
+  induction fuel as [|f IH]; intros d ps pl buf Hd HI Hps Ho He ai bi s buf' H; [discriminate|].
+  rewrite middle_loop_S in H. destruct (d >? mx); [discriminate|].
+  pose proof Dtot_bounds as [Db1 Db2].
+  assert (H2d : 2 * d <= m + n + 1) by (destruct (Z.odd delta); [specialize (Ho eq_refl)|specialize (He eq_refl)]; lia).
+  assert (Hfu : hi d - lo d < 2 * Z.of_nat fuelN) by (unfold zlen in *; win_lia).
+  pose proof (forward_pass d ps pl Hd H2d Ho Hps fuelN (lo d) buf HI (same_par_lo d) (Z.le_refl _) Hfu) as HF.
+  destruct (forward a b fuelN d (lo d) (hi d) ps pl buf) as [buf1 [[[ai1 bi1] s1]|]].
+  { injection H as <- <- <- <-. exact HF. }
+  destruct HF as [k1 [Hk1 HI1]].
+  pose proof (backward_pass d Hd H2d He fuelN (lo d) buf1 (FI_end_BI d k1 buf1 Hk1 HI1) (same_par_lo d) (Z.le_refl _) Hfu) as HB.
+  destruct (backward a b fuelN d (lo d) (lo d) (hi d) buf1) as [buf2 [[[ai2 bi2] s2]|]].
+  { injection H as <- <- <- <-. exact HB. }
+  destruct HB as [k2 [Hk2 HI2]].
+  apply (IH (d + 1) (lo d) (hi d) buf2); try assumption.
+  - lia.
+  - eapply BI_end_FI; eauto.
+  - right. replace (d + 1 - 1) with d by lia. repeat split; lia.
+  - intro Hodd. pose proof (forward_no_mid d k1 buf1 Hd Hk1 HI1 Hodd). specialize (Ho Hodd).
+    destruct (odd_delta_ex Hodd) as [q Hq]. unfold Dtot in *. lia.
+  - intro Hev. pose proof (backward_no_mid d k2 buf2 Hd Hk2 HI2 Hev). specialize (He Hev).
+    destruct (even_delta_ex Hev) as [q Hq]. unfold Dtot in *. lia.
+Qed.
 End Myers.
+
+(* ---------- middle: initialisation, and the final theorem ---------- *)
+Lemma middle_unfold a b buf :
+  middle a b buf =
+  middle_loop a b (S (S (length a + length b))) 0 0 0
+    (setb (setb buf ((zlen a + zlen b + 2) / 2 + 1) 0) (2 * ((zlen a + zlen b + 2) / 2) + (zlen a + zlen b + 2) / 2 + 1) 0).
+Proof. reflexivity. Qed.
+
+Theorem middle_optimal : mid_optimal middle.
+Proof.
+  intros a b buf ai bi s buf' Hm Hn Hbuf H.
+  assert (Hopt : zlen buf' = zlen buf /\ Opt a b ai bi s).
+  { rewrite middle_unfold in H.
+    pose proof (mx_bounds a b) as Hmx.
+    eapply (middle_loop_ok a b Hm Hn (zlen buf) Hbuf _ 0 0 0 _ (Z.le_refl 0)); [| | | |exact H].
+    - assert (Hlo : lo b 0 = 0) by (unfold lo; destruct (Z.gtb_spec 0 (zlen b)); lia).
+      rewrite Hlo. constructor.
+      + now rewrite !zlen_setb.
+      + intros; lia.
+      + intros; lia.
+      + intros; lia.
+      + intros _. rewrite (V1_write2 a b (zlen buf)); [|now rewrite zlen_setb|lia|lia].
+        rewrite (V1_write a b (zlen buf)); [reflexivity|reflexivity|lia].
+      + intros _. rewrite (V2_write a b (zlen buf)); [reflexivity|now rewrite zlen_setb|lia].
+      + intros; lia.
+    - left. repeat split.
+    - intros _. pose proof (Dtot_bounds a b). lia.
+    - intros _. pose proof (Dtot_bounds a b). lia. }
+  destruct Hopt as [Hl Ho]. split; [exact Hl|].
+  intros A1 A2 A3 A4 A5. apply optimal_split; try assumption.
+  - apply snake_equal; try assumption. exact (middle_sound a b buf ai bi s buf' H).
+  - now apply Ho.
+Qed.
+
+Theorem script_minimal a b chunks : lcs a b = LcsOk chunks -> cost chunks = zlen a + zlen b - 2 * L a b.
+Proof. apply lcs_gen_minimal. exact middle_optimal. Qed.
+
+Corollary lcs_valid_and_minimal a b chunks : lcs a b = LcsOk chunks ->
+  script_ok chunks a b = true /\ forall chunks', script_ok chunks' a b = true -> cost chunks <= cost chunks'.
+Proof.
+  intro H. split; [now apply lcs_correct|].
+  intros chunks' H'. rewrite (script_minimal a b chunks H). now apply script_cost_lower_bound.
+Qed.
+
+Lemma L_is_lcs a b : (exists s, Sub s a /\ Sub s b /\ zlen s = L a b) /\
+                     (forall s, Sub s a -> Sub s b -> zlen s <= L a b).
+Proof. split; [apply L_wit|apply L_ub]. Qed.
